@@ -1,5 +1,6 @@
 import Darling.DeclCodec
 import Darling.Derive.Env
+import Darling.FromMeta.SpanWF
 /-
   Driver for derived receivers:
     decl lines (prelude):  decl <Name> <Trait> <decl-sexp>
@@ -70,5 +71,15 @@ def answer (corpus : Corpus) (global : Oracle) (thr : Nat) (c : Sexp) : String :
        | some t, some (d, sp), some o => deriveAnswer (o.merge global) thr t d sp
        | _, _, _ => "bad-case")
   | _ => "bad-case"
+
+/-- the hypotheses of `C03.recv_allWithin` evaluated on this case: the item is span-well-formed
+    and every answer of the array oracle lies inside it -/
+def hyp (global : Oracle) (c : Sexp) : Option Bool :=
+  match c with
+  | .list [.atom "recv", .str _, .list [.atom "meta", m], orc] =>
+      match Driver.FM.oracleOf? orc, metaOf? m with
+      | some o, some m => some (m.spanWF && (o.merge global).arrsWithin m.span)
+      | _, _ => none
+  | _ => none
 
 end Driver.Recv
